@@ -78,6 +78,14 @@ SUMMARY = {
  "C08d": "tx.rollback() reloads the freelist from the failed transaction's own (uncommitted) freelist page instead of the committed one",
  "C12d": "SetSequence/NextSequence materialise the root node only for inline buckets (a sequence change of an otherwise untouched paged bucket is not written)",
  "C20d": "common.CopyFile (first step of every surgery command) truncates the copy to the high-water mark read from meta page 0 when the file has 16 MiB of slack (stale when meta 1 is the active one)",
+ "C15d": "Compact caches resolved destination buckets in a map keyed by the bucket path joined with / (distinct paths whose joined names coincide share a bucket)",
+ "C18d": "Commit calls grow() on every commit, not only when the high-water mark moved (grow is not MaxSize-checked: a file without slack is extended past the limit)",
+ "C03e": "commitFreelist no longer rolls back when allocating the freelist page fails (same patch as C08b/C07b, independent)",
+ "C16e": "batch.run takes the address of the failing call's slot before the swap-remove (trySolo goes to the wrong caller; the failing one never hears back)",
+ "C13d": "mlock/munlock lose their clamp to the map size (slice bounds panic when the file overtakes the map with Mlock set)",
+ "C09d": "shared.Rollback leaves pages whose allocating tx is known in the free/pending cache after their free is rolled back",
+ "C07e": "hashMap.Init returns before resetting its maps when the list is empty (same idea as C06b, independent)",
+ "C10d": "removeTx returns early when statistics are off (a closed reader is never unregistered under NoStatistics)",
 }
 rows = []
 for d in sorted(glob.glob("/verif/seeded/*/meta.json")):
